@@ -95,6 +95,8 @@ type CaseSpec struct {
 	ExpandTop bool       `json:"expand_top"` // dynblock.Expand around the merge
 	Parts     []Schema   `json:"parts"`      // PartialContent for all but the last, Content for the last
 	Overlap   bool       `json:"overlap"`    // parts are NOT name-disjoint: observed, not subject to the law
+	// schema applied (Content) to the Body of every block a step returns
+	Child Schema `json:"child"`
 }
 
 var attrPool = []string{"a", "b", "c", "d", "e", "f"}
@@ -499,5 +501,26 @@ func (g *gen) genCase() *CaseSpec {
 	if !cs.Overlap && !partsDisjoint(cs.Parts) {
 		cs.Overlap = true
 	}
+	cs.Child = g.genChildSchema()
 	return cs
+}
+
+// genChildSchema draws the schema applied to the bodies of returned blocks.
+func (g *gen) genChildSchema() Schema {
+	s := Schema{Attrs: []SAttr{}, Blocks: []SBlock{}}
+	for _, n := range append(append([]string{}, attrPool...), sharedName) {
+		if g.r.Chance(0.5) {
+			s.Attrs = append(s.Attrs, SAttr{Name: n, Required: g.r.Chance(0.2)})
+		}
+	}
+	for _, t := range blockPool {
+		if g.r.Chance(0.5) {
+			k := g.typeLabels[t]
+			if g.r.Chance(0.15) {
+				k++
+			}
+			s.Blocks = append(s.Blocks, SBlock{Type: t, Labels: k})
+		}
+	}
+	return s
 }
